@@ -475,7 +475,8 @@ def body(chk, db, cfgname):
                 if not isinstance(k, tuple):
                     return False
                 if k[0] == "op" and len(k) == 4 and k[1] == "[]":
-                    return outside_subscript(k[2], target, inside) or outside_subscript(k[3], target, True)
+                    # numbers[i] reads ONE element: the container as the base of a subscript is not a use of the whole vector
+                    return (k[2] != target and outside_subscript(k[2], target, inside)) or outside_subscript(k[3], target, True)
                 return any(outside_subscript(x, target, inside) for x in k[1:] if isinstance(x, tuple))
             whole = key_contains(rk, lambda x: x == numbers) and outside_subscript(rk, numbers)
             # does the position argument flow anywhere except into subscripts, bounds comparisons and log output?
